@@ -311,6 +311,12 @@ theorem history_index_independent (C : Bid → Stat → Option AuditInfo) (steps
 
 /-! ### the scanner as it is: the result depends on the index (finding F-C19-1) -/
 
+/-- The defect in general: the scanner as it is never touches a row whose artifact is no longer in the archive —
+the row stays in the index (and keeps taking part in `query`). -/
+theorem scanCurrent_keeps_vanished_rows (idx : Index) (files : List FileEnt) (r : Row)
+    (hvanished : ∀ f ∈ files, r.bid ≠ f.bid) : r ∈ (scanCurrent idx files).rows ↔ r ∈ idx.rows :=
+  scanCurrent_rows_other files idx hvanished
+
 section Witness
 open C19Witness
 
